@@ -79,6 +79,10 @@ Definition agree_resolve (c : wcase) : bool :=
       | Some t, Some t' => inode_eqb (erase_ns t) (erase_ns t')
                            && Bool.eqb (says_opt (c_cfg c) (c_evs c) t) (says_opt (c_cfg c) (c_evs c) t')
       | None, None => true
+      (* the specification's reader refuses an attribute written as `xmlns`/`xmlns:p` in
+         attribute position (real parsers read it as a declaration); only reachable with
+         names outside the guard *)
+      | None, Some _ => negb (names_ok (c_evs c))
       | _, _ => false
       end
   | _, _ => true
@@ -124,3 +128,8 @@ Definition cl_late_qname (c : wcase) := no_late_qname_data (c_evs c).
 Definition cl_nil (c : wcase) := nil_content_ok (c_evs c).
 Definition cl_clark (c : wcase) := no_clark_datatype_text (c_evs c).
 Definition cl_guard (c : wcase) := writer_guard (c_cfg c) (c_user c) (c_evs c).
+Definition cl_lxml_domain (c : wcase) := lxml_domain (c_cfg c) (c_user c) (c_evs c).
+(* inside the guard and the lxml domain the sink model must not abstain (writer_sound_lxml) *)
+Definition lxml_covered (c : wcase) : bool :=
+  negb (cl_guard c && cl_lxml_domain c) || negb (lxml_abstains c).
+Definition in_lxml_theorem (c : wcase) : bool := cl_guard c && cl_lxml_domain c.
